@@ -5,6 +5,7 @@
  *
  *   stdin   S <session> <arg>...      start a session (a fresh child process; <arg>s configure the mode)
  *           D <hex>|-                 one datagram ('-' = empty)
+ *           X <hex>                   contents of the receive buffer before the next datagram arrives
  *           F <hex>                   (talker only) one CAN frame as read from the CAN socket
  *           E                         end of session: run it
  *   stdout  B <session> <idx>         datagram idx is being delivered
@@ -92,8 +93,16 @@ static ssize_t hx_recv(int fd, void *buf, size_t n, int flags)
 {
     (void)fd; (void)flags;
     hx_close_datagram();
-    hx_item *it = hx_take('D', &hx_next_d);
+    /* an X item in front of a datagram: what the receive buffer holds before the datagram arrives (the contents of an
+       uninitialised / reused buffer are arbitrary; this makes them a controlled input) */
+    hx_item *it = NULL, *stale = NULL;
+    while (hx_next_d < hx_nitems) {
+        hx_item *c = &hx_items[hx_next_d++];
+        if (c->kind == 'X') stale = c;
+        else if (c->kind == 'D') { it = c; break; }
+    }
     if (!it) hx_finish();
+    if (stale) memcpy(buf, stale->bytes, stale->len < n ? stale->len : n);
     hx_cur = hx_d_index++;
     fprintf(stdout, "B %s %d\n", hx_session, hx_cur);
     fflush(stdout);
@@ -228,7 +237,7 @@ int main(int argc, char **argv)
             snprintf(hx_session, sizeof hx_session, "%s", tok ? tok : "?");
             while ((tok = strtok(NULL, " ")) && hx_nargs < 31) hx_args[hx_nargs++] = strdup(tok);
             hx_args[hx_nargs] = NULL;
-        } else if ((line[0] == 'D' || line[0] == 'F') && line[1] == ' ' && in_session) {
+        } else if ((line[0] == 'D' || line[0] == 'F' || line[0] == 'X') && line[1] == ' ' && in_session) {
             if (hx_nitems < HX_MAX_ITEMS) {
                 hx_item *it = &hx_items[hx_nitems];
                 if (hx_unhex(line + 2, &it->bytes, &it->len) == 0) { it->kind = line[0]; hx_nitems++; }
